@@ -1,3 +1,197 @@
-import StirVerif.C03.Model
+/-
+C03 — "System-matrix rows do not depend on symmetries, caching or request history".
+Property theorems over the model of `Model.lean` (cylindrical geometry).  All statements are for every number of
+views, every bin, every combination of switches, every history (no bounds).
+
+What is *not* a theorem here: that the ray tracer (`compute`) itself is equivariant under the grid isometries
+(`compute (op.onBin b₀) = op.onElems (compute b₀)`); that is what the C++ oracle of the check evaluates.
+-/
+import StirVerif.C03.ProofsRebuild
+import StirVerif.C03.ProofsBasic
+import StirVerif.C03.ProofsVox
+import StirVerif.C03.ProofsKey
+import StirVerif.C03.ProofsCache
+import StirVerif.C03.ProofsZ
+import StirVerif.C03.ProofsMisc
+
 namespace StirVerif.C03
+
+/-! ## symmetry bookkeeping -/
+
+/-- the switches left by the constructor always satisfy `WF`: 90° only with 180° and `num_views % 4 = 0`,
+    180° only with an even number of views — for every request and every kind of data -/
+theorem C03_effective_WF (V : Int) (hV : 0 < V) (f : Flags) (sq phi0 tof xy0 : Bool) (g : AxGeo)
+    (hn : ∀ s, g.nppa s ≠ 0) : (Sym.make V (f.effective V sq phi0 tof xy0) g).WF :=
+  effective_WF V hV f sq phi0 tof xy0 g hn
+
+/-- "derived from a symmetry-related row": **the symmetry operation found for a bin, applied to its basic bin, gives
+    the bin back** — every bin in the view range, every combination of switches, every number of views.
+    (`TofOK`: a non-zero timing position is restored unless `swap_s` is combined with a view symmetry; the
+    constructor never leaves that combination for TOF data.) -/
+theorem C03_symop_rebuilds_bin (y : Sym) (h : y.WF) (b : Bin) (hv : 0 ≤ b.view ∧ b.view < y.V) (ht : TofOK y b) :
+    (y.findSymOp b).onBin (y.basic b) = b :=
+  symop_rebuilds_bin y h b hv ht
+
+/-- … and `TofOK` cannot be dropped: with `swap_s` and the 180° symmetry a bin with negative tangential position,
+    a view beyond 90° and timing position 1 comes back with timing position −1 -/
+theorem C03_symop_rebuilds_bin_tof_fails :
+    let y : Sym := { V := 8, d90 := false, d180 := true, swapSeg := false, swapS := true, shiftZ := false,
+                     nppr := 2, nppa := fun _ => 1, delta2 := fun _ => 0, zoff4 := fun _ => 0 }
+    (y.findSymOp ⟨0, 6, 0, -1, 1⟩).onBin (y.basic ⟨0, 6, 0, -1, 1⟩) = ⟨0, 6, 0, -1, -1⟩ := by decide
+
+/-- the basic bin stays inside the view range (the compiled-out asserts `0 <= view < view180`) -/
+theorem C03_basic_in_range (y : Sym) (h : y.WF) (b : Bin) (hv : 0 ≤ b.view ∧ b.view < y.V) :
+    0 ≤ (y.basic b).view ∧ (y.basic b).view < y.V :=
+  basic_view_range y h b hv
+
+/-- `find_basic_bin` is idempotent and reports "no change" on its own result -/
+theorem C03_basic_idempotent (y : Sym) (h : y.WF) (b : Bin) (hv : 0 ≤ b.view ∧ b.view < y.V) :
+    y.findBasicBin (y.basic b) = (y.basic b, false) :=
+  basic_idempotent y h b hv
+
+/-- a basic bin gets `TrivialSymmetryOperation`: identity on bins, voxels and rows (this is what makes a row cached
+    as "basic" and a row cached as "requested bin" interchangeable) -/
+theorem C03_basic_is_fixed (y : Sym) (h : y.WF) (b : Bin) (hv : 0 ≤ b.view ∧ b.view < y.V) :
+    y.findSymOp (y.basic b) = SymOp.triv ∧ (∀ b', SymOp.triv.onBin b' = b') ∧ (∀ c, SymOp.triv.onVoxel c = c) :=
+  ⟨basic_is_fixed y h b hv, fun _ => rfl, fun _ => rfl⟩
+
+/-! ## voxels -/
+
+/-- "no voxel appears twice": every operation is injective on image indices … -/
+theorem C03_onVoxel_injective (o : SymOp) (c c' : Vox) (h : o.onVoxel c = o.onVoxel c') : c = c' :=
+  onVoxel_injective o c c' h
+
+/-- … (and onto: a signed permutation of (y,x) with an affine map of z) … -/
+theorem C03_onVoxel_surjective (o : SymOp) (c : Vox) : ∃ c', o.onVoxel c' = c :=
+  onVoxel_surjective o c
+
+/-- … hence a duplicate-free basic row stays duplicate-free, and its values are carried over unchanged, in order
+    ("every element non-negative" is inherited from the basic row) -/
+theorem C03_row_nodup_transfer {α : Type} (o : SymOp) (e : List (Vox × α)) (h : (e.map Prod.fst).Nodup) :
+    ((o.onElems e).map Prod.fst).Nodup ∧ (o.onElems e).map Prod.snd = e.map Prod.snd :=
+  ⟨onElems_nodup o e h, onElems_values o e⟩
+
+/-- "refers to a voxel inside the image", transaxial part: the symmetric square `|x|,|y| ≤ n` to which the ray tracer
+    restricts itself (`n = min(max_index, -min_index)`) is mapped into itself by every operation -/
+theorem C03_onVoxel_in_square (o : SymOp) (c : Vox) (n : Int) (h : -n ≤ c.x ∧ c.x ≤ n ∧ -n ≤ c.y ∧ c.y ≤ n) :
+    -n ≤ (o.onVoxel c).x ∧ (o.onVoxel c).x ≤ n ∧ -n ≤ (o.onVoxel c).y ∧ (o.onVoxel c).y ≤ n :=
+  onVoxel_in_square o c n h
+
+/-- axial part: `find_transform_z` never rounds and equals twice the axial midpoint of the LOR
+    (`Z + Q = 2·centre`), whatever the average ring difference of the segment -/
+theorem C03_transformZ_exact (V : Int) (f : Flags) (g : AxGeo) (s a : Int) :
+    4 * (Sym.make V f g).transformZ s a = 2 * (Sym.make V f g).centre4 s a :=
+  (transformZ_eq V f g s a).1
+
+/-- axial part: the z map of the operation found for `b` (mirror `z ↦ q − z + z_shift` or shift `z ↦ z + z_shift`)
+    carries the axial midpoint of the basic bin's LOR to the axial midpoint of the LOR of `b`
+    (quarter-plane units; `onVoxel_zmap4` ties `zmap4` to `transform_image_coordinates`) -/
+theorem C03_zmap_centre (V : Int) (f : Flags) (g : AxGeo) (hg : g.Symmetric) (b : Bin) (c : Vox) :
+    let y := Sym.make V f g
+    (y.findSymOp b).zmap4 (y.centre4 (y.basic b).seg (y.basic b).ax) = y.centre4 b.seg b.ax ∧
+      4 * ((y.findSymOp b).onVoxel c).z = (y.findSymOp b).zmap4 (4 * c.z) :=
+  ⟨zmap_centre V f g hg b, onVoxel_zmap4 _ c⟩
+
+/-! ## cache -/
+
+/-- `cache_key` (bit packing 1+28+1+12+1+20 bits) is injective on the box whose bounds `set_up` checks.
+    (`set_up` checks the axial bound for segment 0 only and only if caching is enabled at that moment: the box is a
+    hypothesis here.) -/
+theorem C03_cacheKey_injective (b b' : Bin) (hb : InBox b) (hb' : InBox b') (h : cacheKey b = cacheKey b') :
+    b.ax = b'.ax ∧ b.tang = b'.tang ∧ b.tof = b'.tof :=
+  cacheKey_injective b b' hb hb' h
+
+/-- "with caching disabled, restricted to basic bins or complete, for any order and repetition of requests, and after
+    clearing the cache or setting the matrix up again for another geometry": **for every history** of
+    `get | clear_cache | enable_cache | store_only_basic_bins_in_cache | set_* | set_up` on a new object, every row
+    handed out is `(findSymOp b).onRow (compute (basic b))` — bin included — for the geometry and parameters the last
+    `set_up` call asked for.
+
+    `_partial`: `hsame` excludes histories that call `set_up` for two *different* geometries which agree in projection
+    data, voxel size and origin (i.e. differ in the index range of the image only): `set_up` returns early for those
+    (see `C03_cache_refines_fails`).  `Req`: requested bins lie in the view range and in the key box. -/
+theorem C03_cache_refines_partial {G α : Type} (w : World G α) (hWF : ∀ g p, (w.symOf g p).WF)
+    (hsame : ∀ g g', w.sameDataVoxelOrigin g g' = true → g = g')
+    (p0 : Params) (evs : List (Ev G))
+    (hreq : ∀ x ∈ (PM.fresh p0 : PM G α).run w none evs, Req w x) :
+    ∀ x ∈ (PM.fresh p0 : PM G α).run w none evs, Refines w x :=
+  run_refines w hWF hsame evs (PM.fresh p0) none
+    ⟨rfl, fun h => absurd h (by simp [PM.fresh]), fun g p h => absurd h (by simp [PM.fresh])⟩ hreq
+
+/-- the full statement (no `hsame`) — false of the code as it stands -/
+def C03_cache_refines_full : Prop :=
+  ∀ (G α : Type) (w : World G α), (∀ g p, (w.symOf g p).WF) → ∀ (p0 : Params) (evs : List (Ev G)),
+    (∀ x ∈ (PM.fresh p0 : PM G α).run w none evs, Req w x) → ∀ x ∈ (PM.fresh p0 : PM G α).run w none evs, Refines w x
+
+/-! ### negative witness: `set_up` for an image that differs in its index range only -/
+
+/-- after the second `set_up` (for the large image) the row still has the value of the small image … -/
+theorem C03_cache_refines_fails_run :
+    ((PM.fresh pDefault : PM Bool Nat).run wBad none evsBad).map (fun x => (x.2.1.map Prod.fst, x.2.2.elems.map Prod.snd)) =
+      [(some false, [0]), (some true, [0])] := by decide
+
+/-- … although the specification for the large image has the value 1: the full statement fails -/
+theorem C03_cache_refines_fails : ¬ C03_cache_refines_full := by
+  intro h
+  have hgood : Good ySimple ⟨0, 0, 0, 0, 0⟩ := ⟨by decide, ⟨by decide, by decide, by decide⟩, Or.inl rfl⟩
+  have hreq : ∀ x ∈ (PM.fresh pDefault : PM Bool Nat).run wBad none evsBad, Req wBad x := by
+    rw [runBad_eq]
+    intro x hx
+    simp only [List.mem_cons, List.mem_singleton, List.not_mem_nil, or_false] at hx
+    rcases hx with rfl | rfl
+    · exact ⟨false, pDefault, rfl, hgood⟩
+    · exact ⟨true, pDefault, rfl, hgood⟩
+  have := h Bool Nat wBad (fun _ _ => ySimple_WF) pDefault evsBad hreq
+  rw [runBad_eq] at this
+  obtain ⟨g, p, h1, h2⟩ := this _ (List.mem_cons_of_mem _ (List.mem_cons_self))
+  simp only [Option.some.injEq, Prod.mk.injEq] at h1
+  obtain ⟨rfl, rfl⟩ := h1
+  have h3 : spec wBad true pDefault ⟨0, 0, 0, 0, 0⟩ = some ⟨⟨0, 0, 0, 0, 0⟩, [(⟨0, 0, 0⟩, 1)]⟩ := by rfl
+  rw [h3] at h2
+  simp at h2
+
+/-! ## non-vacuity -/
+
+/-- a symmetries object with all five switches on satisfies `WF`, and a bin with negative segment and tangential
+    position, a view in (135°,180°) and a non-zero axial position satisfies the request hypotheses -/
+example : ySample.WF ∧ Good ySample ⟨-1, 7, 2, -1, 0⟩ ∧ ySample.basic ⟨-1, 7, 2, -1, 0⟩ = ⟨1, 1, 0, 1, 0⟩ ∧
+    (ySample.findSymOp ⟨-1, 7, 2, -1, 0⟩).kind = .swap_ymy_zq :=
+  ⟨ySample_WF, ⟨by decide, ⟨by decide, by decide, by decide⟩, Or.inl rfl⟩, by decide, by decide⟩
+
+/-- the constructor's switches for 8 views, square voxels, no TOF: all five survive -/
+example : Flags.effective ⟨true, false, true, true, true⟩ 8 true true false true = ⟨true, true, true, true, true⟩ := by decide
+
+/-- … and for 6 views the 90° symmetry is dropped, for TOF data everything but `shift_z` -/
+example : Flags.effective ⟨true, false, true, true, true⟩ 6 true true false true = ⟨false, true, true, true, true⟩ ∧
+    Flags.effective ⟨true, true, true, true, true⟩ 8 true true true true = ⟨false, false, false, false, true⟩ := by decide
+
+/-- the axial geometry of a 3-ring scanner (span 1, 5 planes) is symmetric in the segment number -/
+example : sampleGeo.Symmetric := ⟨fun s => rfl, fun s => by simp only [sampleGeo, iabs]; split <;> split <;> omega⟩
+
+/-- the hypotheses of `C03_cache_refines_partial` are satisfiable by a history with repeats, mode switches,
+    `clear_cache` and `set_up` for a second geometry, and its run hands out five rows -/
+example : (∀ g p, (wGood.symOf g p).WF) ∧ (∀ g g', wGood.sameDataVoxelOrigin g g' = true → g = g') ∧
+    ((PM.fresh pDefault : PM Bool Nat).run wGood none evsGood).length = 5 ∧
+    (∀ x ∈ (PM.fresh pDefault : PM Bool Nat).run wGood none evsGood, Req wGood x) := by
+  refine ⟨fun _ _ => ySample_WF, by decide, by decide, ?_⟩
+  intro x hx
+  have hg : ∀ b ∈ [(⟨-1, 6, 2, -1, 0⟩ : Bin), ⟨1, 2, 0, 1, 0⟩, ⟨1, 5, 1, -1, 0⟩], Good ySample b := by
+    intro b hb
+    simp only [List.mem_cons, List.mem_singleton, List.not_mem_nil, or_false] at hb
+    rcases hb with rfl | rfl | rfl <;> exact ⟨by decide, ⟨by decide, by decide, by decide⟩, Or.inl rfl⟩
+  have h1 : ((PM.fresh pDefault : PM Bool Nat).run wGood none evsGood).map (fun x => (x.1, x.2.1)) =
+      [(⟨-1, 6, 2, -1, 0⟩, some (false, pDefault)), (⟨-1, 6, 2, -1, 0⟩, some (false, pDefault)),
+       (⟨1, 2, 0, 1, 0⟩, some (false, pDefault)), (⟨-1, 6, 2, -1, 0⟩, some (true, pDefault)),
+       (⟨1, 5, 1, -1, 0⟩, some (true, pDefault))] := by decide
+  have h2 : (x.1, x.2.1) ∈ ((PM.fresh pDefault : PM Bool Nat).run wGood none evsGood).map (fun x => (x.1, x.2.1)) :=
+    List.mem_map_of_mem hx
+  rw [h1] at h2
+  simp only [List.mem_cons, List.mem_singleton, List.not_mem_nil, or_false, Prod.mk.injEq] at h2
+  rcases h2 with ⟨hb, hc⟩ | ⟨hb, hc⟩ | ⟨hb, hc⟩ | ⟨hb, hc⟩ | ⟨hb, hc⟩ <;>
+    exact ⟨_, _, hc, by rw [hb]; exact hg _ (by simp)⟩
+
+/-- two bins that differ in the sign of the tangential position only get different cache keys -/
+example : cacheKey ⟨0, 0, 3, 2, 0⟩ ≠ cacheKey ⟨0, 0, 3, -2, 0⟩ ∧ InBox ⟨0, 0, 3, -2, 0⟩ := by
+  refine ⟨by decide, by decide, by decide, by decide⟩
+
 end StirVerif.C03
